@@ -381,7 +381,9 @@ STRING_VALUES = [
 # the product of the two feature classes the string printer looks at: which triple-quote sequences occur x how the lines are laid out
 # (a seeded change broke only strings that have both a triple quote and lines the dedent rule would change)
 _QUOTE_FEATURES = ["", "'''", '"""', "''' " + '"""']
-_LAYOUTS = ["{q}x", "a{q}\nb", " a{q}\n b", "a{q}\n", "\n{q}a", "a\n\n{q}b", "  a{q}\n\n  b", " {q}\n", "a\n {q}"]
+_LAYOUTS = ["{q}x", "a{q}\nb", " a{q}\n b", "a{q}\n", "\n{q}a", "a\n\n{q}b", "  a{q}\n\n  b", " {q}\n", "a\n {q}",
+            # every line led by white space that is not a blank (tab, ideographic space, no-break space, form feed): kept, not indentation
+            "\ta{q}\n\tb", "\u3000a{q}\n\u3000b", "\xa0a\n\xa0{q}b", " \ta{q}\n \tb", "\x0ca\n\x0c{q}"]
 for _q in _QUOTE_FEATURES:
     for _l in _LAYOUTS:
         _v = _l.replace("{q}", _q)
